@@ -10,7 +10,7 @@ from core import TRUST_COMMON
 import fitlib
 from fitlib import q
 
-MODS = ["Nanite.Props.C05", "Nanite.Audit.C05"]
+MODS = ["Nanite.Props.C05", "Nanite.Audit.C05", "Nanite.Props.C03Scan", "Nanite.Audit.C05Scan"]
 EPS = np.finfo(float).eps
 
 
@@ -32,16 +32,21 @@ def run(ctx):
         "plateau grid (tied by correspondence at exact rationals; per-pass contact points are recorded from the "
         "wrapped lmfit.minimize)",
         "convergence of the relative-cp passes and the plateau detection on the Butterworth-smoothed modulus "
-        "curve are runtime numerics (explored by the oracle)"]
+        "curve are runtime numerics (explored by the oracle)",
+        "the scan cache (`compute_emodulus_mindelta`: a visible scan has the stored number of samples for every "
+        "history, Props/C03Scan.c05_scan_sample_count) is a theorem about the object model Model/Indent.lean, whose "
+        "correspondence runs in ./check C03 (histories with scan requests); here the sample count is checked on "
+        "the real code in the sequences stream"]
     ctx.rule = ("random fits (segments, absolute intervals incl. boundaries coinciding with sample abscissae, "
                 "inverted, one-sided, few-nm-narrow and zero-width intervals; contact-point-relative intervals "
                 "on curves with model mismatch; plateau search with 5-12 samples); the 'fit range' column, "
                 "xmin/xmax and the scan grid are compared with the Lean model and with the property statement; "
                 "non-trivial = distinct case whose fit ran")
+    ctx.gen(["fitkeys", "preproc"])          # (tables the object model of the scan cache is built on)
     ctx.build(MODS, clean=(ctx.tier == "thorough"))
     ctx.grep_audit()
     if ctx.tier == "thorough":
-        ctx.leanchecker(["Nanite.Props.C05"])
+        ctx.leanchecker(["Nanite.Props.C05", "Nanite.Props.C03Scan"])
     n = 140 if ctx.tier == "quick" else 1500
     lines, expect, metas = [], [], []
     for i in range(n):
